@@ -1039,3 +1039,27 @@ def r199(ctx, rep, m, members, rule="R19.9"):
                 rep.ok(rule, desc)
     if n < 6:
         raise AnalysisError(f"minimize: only {n} early option reads found (floor 6)")
+    # the key of an option / constant look-up is the member (a str-Enum equal to
+    # its value) or its .value - never its .name (the upper-case identifier)
+    n2 = 0
+    for f in ctx.repo.funcs.values():
+        for node in ast.walk(f.node):
+            key = None
+            if isinstance(node, ast.Subscript) and isinstance(node.value, ast.Name) and node.value.id in ("options", "constants", "kwargs", "DEFAULT_OPTIONS", "DEFAULT_CONSTANTS"):
+                key = node.slice
+            elif isinstance(node, ast.Call) and isinstance(node.func, ast.Attribute) and node.func.attr in ("get", "setdefault", "pop") and isinstance(node.func.value, ast.Name) \
+                    and node.func.value.id in ("options", "constants", "kwargs") and node.args:
+                key = node.args[0]
+            elif isinstance(node, ast.Compare) and len(node.ops) == 1 and isinstance(node.ops[0], (ast.In, ast.NotIn)) and isinstance(node.comparators[0], ast.Name) \
+                    and node.comparators[0].id in ("options", "constants", "kwargs"):
+                key = node.left
+            if key is None:
+                continue
+            if isinstance(key, ast.Attribute) and key.attr == "name" and member_of(key.value):
+                n2 += 1
+                rep.bad(rule, f"{f.local}:{node.lineno} key `{norm(key)}`")
+                rep.finding(rule, f, norm(node)[:120], node.lineno,
+                            f"the look-up uses `{norm(key)}` (the upper-case member name) as key: the user's `{members.get(member_of(key.value)[0], {}).get(member_of(key.value)[1], '?')}` is never found, the default is used here while other places use the supplied value")
+            elif member_of(key):
+                n2 += 1
+    rep.ok(rule, f"{n2} option/constant look-ups use the member or its value as key")
